@@ -81,12 +81,84 @@ def hashseed_job(arg):
     return rep
 
 
+LAMBDA_SRC = """import dds
+from vp import vlog
+%(above)s
+
+def lam_helper():
+    vlog.hit("lam_helper")
+    return %(const)d
+
+
+def entry():
+    # %(comment)s
+    return dds.keep("/c02lam/x", lambda: (vlog.hit("lam_body"), lam_helper())[1])
+%(below)s"""
+
+
+def lambda_job(arg):
+    """A lambda kept from a function that is called directly (not inside an evaluation): text added above or below it,
+    in the same module, does not re-execute it; an edit of its helper does."""
+    import os
+
+    from vp.worker import run_segment
+
+    idx, how, store = arg
+    rep = core.Report("C02")
+    rep.evaluations = 1
+    pkg = "c02lam%d" % idx
+    unrelated = "\n\ndef unrelated_%d():\n    return %d\n\n\nUNRELATED_%d = [1, 2]\n"
+    versions = [
+        ("initial", dict(above="", below="", const=5, comment="c"), None),
+        ("re-evaluation", dict(above="", below="", const=5, comment="c"), False),
+        ("unrelated definitions added above (the lambda moves down)", dict(above=unrelated % (1, 1, 1) + unrelated % (2, 2, 2), below="", const=5, comment="c"), False),
+        ("unrelated definitions added below", dict(above=unrelated % (1, 1, 1) + unrelated % (2, 2, 2), below=unrelated % (3, 3, 3), const=5, comment="c"), False),
+        ("definitions above removed again (the lambda moves up)", dict(above="", below=unrelated % (3, 3, 3), const=5, comment="c"), False),
+        ("helper edited", dict(above="", below=unrelated % (3, 3, 3), const=6, comment="c"), True),
+        ("helper reverted", dict(above="# a comment line\n# another one\n", below="", const=5, comment="c"), False),
+    ]
+    steps = []
+    for i, (label, kw, _) in enumerate(versions):
+        steps.append({"write": {pkg + "/__init__.py": "", pkg + "/m.py": LAMBDA_SRC % kw}, "how": "import" if i == 0 else "reload", "modules": [pkg + ".m"],
+                      "entry": {"style": "call", "module": pkg + ".m", "func": "entry", "args_src": "()"}})
+    case = {"lambda": True, "idx": idx, "how": how, "store": store}
+    with core.Scratch("vp_c02l_") as td:
+        root = os.path.join(td, "code")
+        os.makedirs(root)
+        outs = []
+        segs = [steps] if how == "same-process" else [[dict(st, how="import")] for st in steps]
+        for sg in segs:
+            o = core.fork_call(run_segment, {"mode": "impl", "root": root, "accept": [pkg], "steps": sg, "store": {"kind": store, "dir": os.path.join(td, "store")}}, timeout=300)
+            if isinstance(o, core.JobFailed):
+                rep.inconclusive.append("lambda worker: %r" % (o,))
+                return rep
+            outs += o["steps"]
+    import pickle
+
+    for (label, kw, must_run), o in zip(versions, outs):
+        if "setup_error" in o or o.get("result", ("exc",))[0] != "ok":
+            rep.inconclusive.append("lambda job step %r failed: %r" % (label, o.get("setup_error") or o.get("result")))
+            return rep
+        if pickle.loads(o["result"][1]) != kw["const"]:
+            rep.violate("kept lambda, %s (%s, %s): returned %s, plain execution gives %d" % (label, how, store, o["result"][2][:60], kw["const"]), case, mechanism="lambda-wrong-value")
+            return rep
+        ran = "lam_body" in o["log"]
+        if must_run is None:
+            continue
+        rep.count("memo_must_be_served" if not must_run else "memo_may_execute")
+        if ran and not must_run:
+            rep.violate("kept lambda, %s (%s, %s): its body was executed again although nothing it depends on changed" % (label, how, store), case, mechanism="lambda-recomputed")
+            return rep
+    rep.nontriv(("c02lambda", how, store))
+    return rep
+
+
 def run(tier, seed):
     rep = core.Report("C02")
     rep.rule = (
         "zero-edit histories (re-evaluation, fresh process, unrelated definitions added before/between/after in every module, reordering, edits of non-accepted code, relocation to another accepted "
         "package, switching between f() and dds.eval(f)) over 5 module layouts/import forms x plain and data-function entries; every single edit of the dependency matrix (see C01) with revert and restart; "
-        "random programs with random histories; restarts in brand-new interpreters with other PYTHONHASHSEED values (programs with module-level sets of strings). For every kept node at every step: cone fingerprint seen before => body absent from the execution log and signature unchanged. "
+        "random programs with random histories; restarts in brand-new interpreters with other PYTHONHASHSEED values (programs with module-level sets of strings); a lambda kept from a directly called function while text is added / removed above and below it. For every kept node at every step: cone fingerprint seen before => body absent from the execution log and signature unchanged. "
         "distinct_nontrivial = distinct cases in which at least one node was served from the store."
     )
     cases = build_cases(tier, seed)
@@ -104,6 +176,12 @@ def run(tier, seed):
             rep.inconclusive.append("hash-seed job: %r" % (r,))
         else:
             rep.merge(r)
+    ljobs = [(i, how, store) for i, (how, store) in enumerate([("same-process", "local"), ("new-process-per-step", "local"), ("same-process", "memory"), ("new-process-per-step", "local_lru")])]
+    for j, r in zip(ljobs, core.fork_map(lambda_job, ljobs, timeout=900)):
+        if isinstance(r, core.JobFailed):
+            rep.inconclusive.append("lambda job: %r" % (r,))
+        else:
+            rep.merge(r)
     rep.sample({"case": cases[0]["name"], "history": cases[0]["history"][:8], "edits": [v.get("kind") for v in cases[0]["edit_desc"].values()][:12]})
     rep.assumptions = ["dependency cone as defined in DESIGN.md 4.1; memory store obligations only within one process; noop store excluded"]
     if rep.counters.get("memo_must_be_served", 0) == 0:
@@ -115,6 +193,10 @@ def replay(payload):
     from vp import e1
 
     rep = core.Report("C02")
+    if payload["case"].get("lambda"):
+        c = payload["case"]
+        rep.merge(lambda_job((c["idx"], c["how"], c["store"])))
+        return rep
     if payload["case"].get("hashseed"):
         c = payload["case"]
         rep.merge(hashseed_job((c["idx"], c["program"], c["seeds"])))
